@@ -23,6 +23,10 @@ pub struct AbiOpts {
     pub loops: bool,
     pub early_return: bool,
     pub sp_arith: bool,
+    /// main may hand over to a function by a jump (not convention-conforming for the callee's
+    /// temporaries: only for checks that do not assume that)
+    #[serde(default)]
+    pub handoff: bool,
 }
 
 impl AbiOpts {
@@ -39,6 +43,7 @@ impl AbiOpts {
             loops: true,
             early_return: true,
             sp_arith: true,
+            handoff: false,
         }
     }
 }
@@ -488,6 +493,15 @@ impl Fb<'_, '_> {
         let adj = self.cur - self.frame;
         for (reg, off) in self.saves.clone() {
             self.emit(ins("lw", vec![r(reg), m(off + adj, SP)]));
+        }
+        if self.o.handoff && self.is_main && self.cur != 0 && !self.callees.is_empty() && self.ch.chance(1, 6) {
+            // main hands over to a function it also calls, without giving up its frame: the function
+            // is entered by a call (entry sp = sp) and by a jump from code that knows its own slots
+            let f = self.callees.clone();
+            let f = self.ch.pick(&f).clone();
+            self.emit(ins("jal", vec![Opd::L(f.clone())]));
+            self.emit(ins("j", vec![Opd::L(f)]));
+            return;
         }
         if self.cur != 0 {
             self.emit(ins("addi", vec![r(SP), r(SP), i(self.cur)]));
